@@ -37,12 +37,15 @@ RULE = ("(a) fields on anisotropic 3-d meshes (1-5 cells per axis, negative/larg
         "default / custom / odd labels (spaces, unicode, '%', names close to the fixed array names), masks of every density, 0-3 "
         "subregions; two regimes: 'exact' (dyadic geometry and values: equality demanded) and 'tol' (scales 1e-9..1e3, offsets up to "
         "1e3 edges, thirds: coordinates to 2^-40, values exact, lookups by the boundary comparator).  Per field: Field.to_vtk -> "
-        "dimensions, coordinates, array names/order/components/type/values vs the model grid; VTK FindCell at every cell centre, at "
+        "dimensions, coordinates, array names/order/components/type/values and the active scalars/vectors attributes vs the model grid; VTK FindCell at every cell centre, at "
         "random interior points, near and on faces, outside, vs the model's locate and vs f(p); Field.to_file in bin/bin8/txt/xml with "
         "and without side-car -> the file re-read by VTK alone goes to the model reader and is compared with Field.from_file; side-car "
         "presence and content vs the model; exact round trip by the model (op roundtrip).  (b) legacy point-data files fabricated by "
         "the harness (scalar / vector, with and without per-component blocks, single-point axes, side-car, short / blank / broken "
-        "data) vs the model's legacy reader.  (c) cell-data files fabricated with VTK (no valid array, no field array, extra arrays, "
+        "data) vs the model's legacy reader.  (b') histories: sessions of 2-4 to_file calls (other meshes, with / without subregions, any "
+        "representation, save_subregions on/off) and from_file calls on one or two file names in one directory, optionally starting from an old "
+        "point-data file with side-car, against the model's directory (op session); every read must return the field written last under that "
+        "name (the stale side-car class is finding D64).  (c) cell-data files fabricated with VTK (no valid array, no field array, extra arrays, "
         "norm only, bad side-cars).  (d) rejected inputs: 1-, 2-, 4-d fields, unlabelled vector fields, unknown representations.  "
         "Oracle on the real code alone: VTK's lookup returns a cell whose box contains p and whose field/component/norm/valid entries "
         "are those of the mesh cell containing p; from_file(to_file(f)) has the same corners, counts, values, Boolean validity, labels "
@@ -56,8 +59,16 @@ ASSUMPTIONS = ["float64 fields only (int/float32 dtypes change the VTK array typ
                "'same region' is read as same corners: a VTK file cannot carry dims/units names, tolerance, bc, unit or vdim_mapping",
                "theorems are about exact rational arithmetic; the text writer's rounding is a parameter `rnd`",
                "on a shared face VTK reports the lower cell and the mesh the upper one; the property is read as 'a cell containing p'"]
-UNPROVED = ["VTK writers/readers are modelled as the identity (bin, xml) or value-wise rounding (txt) on the grid view: observed, not proved",
-            "scalar_label_lost / field_label_lost are proved NEGATIVE results (findings D61, D62)"]
+UNPROVED = ["VTK writers/readers are modelled as the identity (bin, xml) or value-wise rounding (txt) on the grid view: observed, not proved "
+            "(also: the XML/legacy sniffing of the first line, the legacy writer's SCALARS/VECTORS/FIELD layout chosen by the active attributes)",
+            "the norm array is modelled squared: norm_of_scalar_is_abs / norm_determined pin the non-negative root, the square root itself is the harness's",
+            "text form: the rounding is a parameter; file_roundtrip_text / text_keeps_digits still ASSUME that the rounded corners stay ordered and that the "
+            "side-car loads on the rounded mesh - the latter is false in general (D63, text_sidecar_rejected_witness)",
+            "subregions: sidecar_accepted / file_roundtrip_exact_subs / history_roundtrip assume C14.SubInv (subregions fit the mesh exactly), "
+            "not the tolerant acceptance of the setter",
+            "scalar_label_lost / field_label_lost / stale_sidecar(_witness) / text_sidecar_rejected_witness are proved NEGATIVE results "
+            "(findings D62, D61, D64, D63); D61 only as a witness, not for every label set containing 'field'",
+            "legacy reader: truncated / malformed data sections (model and code agree on them in the correspondence run; no theorem)"]
 BUDGET = {"quick": 90, "thorough": 900}
 
 NAMES = ["x", "y", "z", "a", "b", "c", "u", "v", "w", "t"]
@@ -140,6 +151,32 @@ def gen_legacy(rng, regime):
                 sidecar=sidecar, trailing_nl=rng.random() < 0.7, sub=rng.getrandbits(32))
 
 
+def gen_session(rng):
+    """a history of to_file / from_file calls on one or two file names in one directory"""
+    names = ["a.vtk", "b.vtk"][: rng.choice([1, 1, 2])]
+    ops = []
+    for _ in range(rng.choice([2, 2, 3, 3, 4])):
+        fc = gen_field(rng, "exact", dict(reps=["bin"], nsub=rng.choice([0, 0, 1, 2])))
+        if rng.random() < 0.35 and ops:  # same mesh as the previous write (other values, maybe without its subregions)
+            prev = next(o for o in reversed(ops) if o["op"] == "write")["field"]
+            fc = dict(prev, sub=rng.getrandbits(32), density=rng.choice([1.0, 0.5]), subs=rng.choice([prev["subs"], []]))
+        ops.append(dict(op="write", name=rng.choice(names), field=fc, rep=rng.choice(REPS + ["bin", "xml"]),
+                        save=rng.random() < 0.7))
+        if rng.random() < 0.5:
+            ops.append(dict(op="read", name=rng.choice(names)))
+    ops += [dict(op="read", name=n) for n in names]
+    start = None
+    if rng.random() < 0.2:  # an old point-data file (and maybe its side-car) is already there under the first name
+        lc = gen_legacy(rng, "exact")
+        lc["defect"] = "none"
+        # no single-point axis: its 1e-9 default cell makes `origin - 0.5e-9` round in binary64 (compared with a tolerance in the
+        # legacy stream; the session comparison is exact)
+        lc["N"] = [max(2, k) for k in lc["N"]]
+        lc["sidecar"] = rng.choice(["none", "ok"])
+        start = lc
+    return dict(kind="session", ops=ops, start=start, regime="exact", sub=rng.getrandbits(32))
+
+
 TAMPERS = ["no-valid", "no-field", "extra-array", "norm-only", "field-first", "labels-mismatch", "dup-like", "valid-values",
            "sidecar-outside", "sidecar-misaligned", "sidecar-unordered", "sidecar-ok", "point-and-cell"]
 
@@ -168,6 +205,9 @@ def cases(rng, tier):
         yield c
     for k in range(240 if quick else 3000):
         yield gen_legacy(rng, ("exact", "exact", "tol")[k % 3])
+    # histories: the same file names written and read several times (finding D64 lives here)
+    for k in range(70 if quick else 800):
+        yield gen_session(rng)
     for t in TAMPERS:
         for _ in range(6 if quick else 60):
             c = gen_field(rng, "exact", dict(nvdim=rng.choice([1, 2, 3]), nsub=1))
@@ -278,8 +318,10 @@ def grid_json(g):
         v = vns.vtk_to_numpy(a)
         cell.append(dict(name=cd.GetArrayName(i), ncomp=int(a.GetNumberOfComponents()), int=bool(v.dtype.kind in "iub"),
                          vals=Qs(v.reshape(-1).tolist()), dtype=str(v.dtype)))
+    sc, vc = cd.GetScalars(), cd.GetVectors()
     return dict(dims=[int(k) for k in g.GetDimensions()], coords=[Qs(c.tolist()) for c in coords], cell=cell,
-                npoint_arrays=int(g.GetPointData().GetNumberOfArrays()))
+                npoint_arrays=int(g.GetPointData().GetNumberOfArrays()),
+                active=[sc.GetName() if sc is not None else None, vc.GetName() if vc is not None else None])
 
 
 def model_grid(gj):
@@ -812,9 +854,76 @@ def run_reject(case, obs):
             obs["files"].append(dict(rep=rep, write=st, save=True, left=sorted(os.listdir(d))))
 
 
+# ------------------------------------------------------------------------------ run: histories in one directory
+def write_legacy_file(case, path):
+    """the fabricated point-data file of a legacy case (and its side-car) under `path`"""
+    text, X, rows = legacy_text(case)
+    N = case["N"]
+    with open(path, "w") as fh:
+        fh.write(text)
+    if case["sidecar"] != "none":
+        cc = [X[a][1] - X[a][0] if N[a] > 1 else 1e-9 for a in range(3)]
+        p1 = np.subtract([X[a][0] for a in range(3)], np.multiply(cc, 0.5))
+        lo = [float(x) for x in p1]
+        hi = [float(x) for x in np.add(p1, np.multiply(N, cc))]
+        sc = {"s1": dict(pmin=lo, pmax=hi, dims=["x", "y", "z"], units=["m", "m", "m"], tolerance_factor=1e-12)}
+        with open(path + ".subregions.json", "w") as fh:
+            json.dump(sc, fh)
+    return text
+
+
+def run_session(case, obs):
+    fail = obs["oracle"].append
+    obs["steps"] = []
+    obs["dir"] = None
+    last = {}     # name -> (field, rep, save) of the last successful to_file
+    stale = {}    # name -> True when the side-car on disk was not written by the last successful to_file
+    with tempfile.TemporaryDirectory() as d:
+        if case.get("start"):
+            name = "a.vtk"
+            path = os.path.join(d, name)
+            text = write_legacy_file(case["start"], path)
+            out, _ = read_with_vtk(path)
+            obs["dir"] = dict(vtk=[dict(name=name, grid=model_grid(grid_json(out)), lines=tokenise(text))],
+                              json=([dict(name=name, sidecar=sidecar_json(path))] if sidecar_json(path) is not None else []))
+            obs["tags"].append("session:legacy-start")
+        for k, op in enumerate(case["ops"]):
+            path = os.path.join(d, op["name"])
+            if op["op"] == "write":
+                f = build_field(op["field"])
+                had_sidecar = os.path.exists(path + ".subregions.json")
+                st, e = _err(lambda: f.to_file(path, representation=op["rep"], save_subregions=op["save"]))
+                obs["steps"].append(dict(op="write", name=op["name"], field=field_json(f), rep=op["rep"], save=op["save"], status=st))
+                if st != "ok":
+                    fail(f"session step {k}: to_file({op['name']!r}, {op['rep']!r}) raised {e}")
+                    continue
+                last[op["name"]] = (f, op["rep"], op["save"])
+                wrote = bool(op["save"] and f.mesh.subregions)
+                stale[op["name"]] = had_sidecar and not wrote
+                if stale[op["name"]]:
+                    obs["tags"].append("session:stale-sidecar")
+            else:
+                st, h = _err(lambda: df.Field.from_file(path))
+                rec = dict(op="read", name=op["name"], status=st)
+                obs["steps"].append(rec)
+                if st == "ok":
+                    rec["result"] = field_json(h)
+                if op["name"] not in last:
+                    continue  # nothing written by to_file under this name (absent, or the fabricated old file): model only
+                f, rep, save = last[op["name"]]
+                marker = " [stale-sidecar]" if stale[op["name"]] else ""
+                if st != "ok":
+                    fail(f"[{rep}]{marker} session step {k}: from_file({op['name']!r}) raised {h} after to_file wrote that name")
+                    continue
+                same_field_oracle(f, h, rep, save, fail, marker=f"{marker} [session step {k}: read returns the field written last]")
+    obs["nontrivial"] = bool(last)
+    obs["tags"] += [f"session:writes:{sum(1 for o in case['ops'] if o['op'] == 'write')}"]
+
+
 def run_impl(case):
     obs = {"oracle": [], "tags": ["kind:" + case["kind"]]}
-    {"field": run_field, "legacy": run_legacy, "tamper": run_tamper, "reject": run_reject}[case["kind"]](case, obs)
+    {"field": run_field, "legacy": run_legacy, "tamper": run_tamper, "reject": run_reject,
+     "session": run_session}[case["kind"]](case, obs)
     return obs
 
 
@@ -836,6 +945,13 @@ def model_requests(case, obs):
         reqs.append(dict(op="read", grid=model_grid(obs["vgrid"]), sidecar=obs["sidecar"], lines=obs["lines"]))
     elif k == "tamper":
         reqs.append(dict(op="read", grid=model_grid(obs["vgrid"]), sidecar=obs["sidecar"]))
+    elif k == "session":
+        ops = [dict(op="write", name=st["name"], field=st["field"], rep=st["rep"], save=st["save"]) if st["op"] == "write"
+               else dict(op="read", name=st["name"]) for st in obs["steps"]]
+        req = dict(op="session", ops=ops)
+        if obs.get("dir"):
+            req["dir"] = obs["dir"]
+        reqs.append(req)
     return reqs
 
 
@@ -887,6 +1003,8 @@ def cmp_grid(gj, r, dis, exact):
         scale = max([abs(F(v)) for v in y] + [Fraction(0)])
         if len(x) != len(y) or any((F(p) != F(q)) if exact else abs(F(p) - F(q)) > Fraction(1, 2 ** 40) * scale for p, q in zip(x, y)):
             dis.append(f"to_vtk coordinates axis {a}: impl {x[:4]}.. vs model {y[:4]}..")
+    if gj.get("active") != m.get("active"):
+        dis.append(f"to_vtk active (scalars, vectors) attributes: impl {gj.get('active')} vs model {m.get('active')}")
     ni, nm = [(a["name"], a["ncomp"], a["int"]) for a in gj["cell"]], [(a["name"], a["ncomp"], a["int"]) for a in m["cell"]]
     if ni != nm:
         dis.append(f"to_vtk arrays: impl {ni} vs model {nm}")
@@ -995,6 +1113,17 @@ def compare(case, obs, rs):
         cmp_read("from_file[legacy]", obs.get("result"), next(it), dis, exact=(case["regime"] == "exact" and min(case["N"]) > 1 and case["defect"] != "coords-split"))
     elif k == "tamper":
         cmp_read(f"from_file[{case['tamper']}]", obs.get("result"), next(it), dis)
+    elif k == "session":
+        r = next(it)
+        if "ok" not in r or len(r["ok"]) != len(obs["steps"]):
+            dis.append(f"session: model {str(r)[:200]}")
+            return dis
+        for n, (st, m) in enumerate(zip(obs["steps"], r["ok"])):
+            if st["op"] == "write":
+                if ("ok" in m) != (st["status"] == "ok"):
+                    dis.append(f"session step {n} to_file({st['name']!r}, {st['rep']!r}): impl {st['status']} vs model {'ok' if 'ok' in m else m}")
+            else:
+                cmp_read(f"session step {n} from_file({st['name']!r})", st.get("result"), m, dis)
     return dis
 
 
@@ -1012,6 +1141,9 @@ def known(case, text):
             return "D61"
         if "[txt-rounded-geometry+subregions]" in text:
             return "D63"
+    if case["kind"] == "session" and "[stale-sidecar]" in text:
+        # exactly: an earlier call left <name>.subregions.json, the last to_file of that name wrote none
+        return "D64"
     return None
 
 
